@@ -22,6 +22,8 @@ SPEC = {
         {"name": "silencer", "pkg": "./silencer", "search_cases": 10000},
         # a real writer goroutine racing one real Mutes call (real time, no seam): the call after both returned is exact
         {"name": "mutesrace", "pkg": "./mutesrace", "search_cases": 60, "timeout_quick": 300},
+        # the whole pipeline: the assembled instance (engine sys of C01/C04/C05) never lists a suppressed alert in a notification
+        {"name": "sys", "pkg": "./sys", "search_cases": 4000, "quick_cases": 250, "timeout_quick": 90, "only": ["takes_effect_next_flush"]},
     ],
     "rule": "random histories on one real silence.Silences + silence.Silencer under synctest virtual time (1 s grid): Set create/edit "
             "(compatible; every minimal variation of the stored matcher sets - operator only, value only, name only, one matcher added / "
